@@ -499,6 +499,14 @@ func (c *Cursor) Filter(ctx context.Context, idxStr string, val []interface{}) e
 	if err != nil {
 		return fmt.Errorf("cursor: %w", err)
 	}
+	if c.t.Tree.Root.Size() == 0 {
+		// nothing to scan; mast's cursor cannot be positioned at the end of
+		// an empty tree (Max() followed by Get() indexes out of range)
+		c.currentKey = nil
+		c.currentRow = nil
+		c.eof = true
+		return nil
+	}
 	if !c.desc {
 		if c.min != nil {
 			err = c.cursor.Ceil(ctx, c.min)
